@@ -288,7 +288,7 @@ CALL_TOKENS = [
     ("self.source.load", "src"), ("self.guard.set_policy", "setpol"), ("self._register_error", "regerr"),
     ("self._stop_event.set", "set"), ("self._stop_event.clear", "clear"), ("self._stop_event.wait", "wait"),
     ("self._stop_event.is_set", "isset"), ("self._thread.start", "spawn"), ("self._lock.acquire", "ACQ"),
-    ("self._lock.release", "REL"),
+    ("self._lock.release", "REL"), ("threading.RLock", "RLock"), ("threading.Lock", "Lock"), ("threading.Event", "Event"),
 ]
 SUFFIX_TOKENS = [(".submit", "submit"), (".result", "result"), (".join", "join"), (".acquire", "ACQ"), (".release", "REL")]
 
@@ -392,9 +392,10 @@ def source_skeletons():
     out = {}
     for rel, cls, methods, prefix in [
         ("src/rbacx/policy/loader.py", "HotReloader",
-         ["check_and_reload", "check_and_reload_async", "refresh_if_needed", "poll_once", "start", "stop",
+         ["__init__", "check_and_reload", "check_and_reload_async", "refresh_if_needed", "poll_once", "start", "stop",
           "_register_error", "_run_loop"], ""),
-        ("src/rbacx/core/engine.py", "Guard", ["evaluate_sync", "set_policy", "_install_policy", "_current_policy_version"], "Guard."),
+        ("src/rbacx/core/engine.py", "Guard",
+         ["__init__", "evaluate_sync", "set_policy", "_install_policy", "_current_policy_version"], "Guard."),
     ]:
         tree = ast.parse((lib.REPO / rel).read_text())
         for node in ast.walk(tree):
@@ -428,6 +429,30 @@ def guarded(fn, T):
     if th.is_alive():
         return ["!hang"]
     return box["e"] if "e" in box else box.get("v")
+
+
+class _Hang(BaseException):
+    pass
+
+
+def guarded_main(fn, T):
+    """run fn() in the main thread; SIGALRM after T seconds interrupts a blocked lock/selector wait."""
+    import signal
+
+    def on_alarm(signum, frame):
+        raise _Hang()
+
+    old = signal.signal(signal.SIGALRM, on_alarm)
+    signal.setitimer(signal.ITIMER_REAL, T)
+    try:
+        return fn()
+    except _Hang:
+        return ["!hang"]
+    except Exception as e:  # noqa: BLE001
+        return ["!raise", type(e).__name__, str(e)[:160]]
+    finally:
+        signal.setitimer(signal.ITIMER_REAL, 0)
+        signal.signal(signal.SIGALRM, old)
 
 
 def in_loop(fn):
@@ -573,11 +598,8 @@ def call_flavour(g, fl, objs, T):
         return guarded(lambda: dec_dict(asyncio.run(g.evaluate_async(*objs))), T)
     if fl == "sync_plain":
         return guarded(lambda: dec_dict(g.evaluate_sync(*objs)), T)
-    if fl == "sync_main":                        # the child's main thread (no watchdog thread in between)
-        try:
-            return dec_dict(g.evaluate_sync(*objs))
-        except Exception as e:  # noqa: BLE001
-            return ["!raise", type(e).__name__, str(e)[:160]]
+    if fl == "sync_main":                        # the child's main thread; watchdog = interval timer signal
+        return guarded_main(lambda: dec_dict(g.evaluate_sync(*objs)), T)
     if fl == "sync_inloop":
         return guarded(in_loop(lambda: dec_dict(g.evaluate_sync(*objs))), T)
     if fl == "sync_worker_of_loop":
@@ -614,6 +636,9 @@ def run_flavours(case, T):
                 out["dec"][k] = call_flavour(g, fl, objs, T)
                 out["logs"][k] = lib.jsonable(list(col.logs))
                 out["metrics"][k] = list(col.metrics_calls)
+                if out["dec"][k] == ["!hang"]:
+                    out["aborted_at"] = k            # one hang is enough; do not wait T for every later call
+                    return out
                 if req != req_before or idmap(req) != req_ids:
                     out["mut"].append(f"request {ri} changed by {k}")
                     req_before, req_ids = copy.deepcopy(req), idmap(req)
@@ -660,18 +685,20 @@ def run_gather(case, T):
             return [dec_dict(x) for x in rs]
         return asyncio.run(main())
 
-    out = {"seq": guarded(lambda: asyncio.run(seq()), T * 2)}
+    out = {"mut": [], "expected_logs": [sum(1 for e, _ in jobs if e == i) for i in range(len(engines))]}
+    out["seq"] = guarded(lambda: asyncio.run(seq()), T * 2)
     n_logs = [len(c.logs) for c in cols]
-    out["gather"] = guarded(lambda: asyncio.run(conc()), T * 2)
-    out["logs_gather"] = [len(c.logs) - n for c, n in zip(cols, n_logs)]
-    out["threads"] = guarded(threads, T * 2)
-    out["threads_inloop"] = guarded(threads_inloop, T * 2)
-    out["mut"] = []
+    for how, fn in (("gather", lambda: asyncio.run(conc())), ("threads", threads), ("threads_inloop", threads_inloop)):
+        if any(out.get(h) == ["!hang"] for h in ("seq", "gather", "threads")):
+            out["aborted_at"] = how
+            return out
+        out[how] = guarded(fn, T * 2)
+        if how == "gather":
+            out["logs_gather"] = [len(c.logs) - n for c, n in zip(cols, n_logs)]
     if [e["policy"] for e in case["engines"]] != pol_before:
         out["mut"].append("policy changed")
     if case["requests"] != reqs_before:
         out["mut"].append("requests changed")
-    out["expected_logs"] = [sum(1 for e, _ in jobs if e == i) for i in range(len(engines))]
     return out
 
 
@@ -751,11 +778,12 @@ def run_watchdog(case, T):
         time.sleep(0.3)
         gate.set()
 
-    def do(call, who):
+    def do(call, who, ix):
         kind = call[0]
-        if kind == "stop" and sched in ("midcheck", "holding") and who == "main":
-            # wait until the polling thread is where the scenario wants it, then stop() while it is held there;
-            # it is let go 0.3 s later (a stop() that waits for it while blocking it would never return)
+        if ix > 0 and sched in ("midcheck", "holding") and who == "main" and not state.get("releasing"):
+            # before the main caller's first call after start(): wait until the polling thread is where the
+            # scenario wants it, then make the call(s) while it is held there; it is let go 0.3 s later
+            state["releasing"] = True
             (in_load if sched == "midcheck" else in_setpol).wait(2.0)
             threading.Thread(target=releaser, daemon=True).start()
         if kind == "check":
@@ -776,8 +804,8 @@ def run_watchdog(case, T):
 
     def caller(calls, ctx, who):
         def body():
-            for c in calls:
-                do(c, who)
+            for ix, c in enumerate(calls):
+                do(c, who, ix)
         return in_loop(body) if ctx == "loop" else body
 
     box = {}
@@ -818,7 +846,11 @@ def child_main():
     lib.assert_impl_path()
     data = json.loads(sys.stdin.read())
     T = float(data.get("T", T_HANG))
+    hangs = 0
     for i, case in data["cases"]:
+        if hangs >= 3:                   # enough evidence; the rest of this shard is reported as not run
+            sys.stdout.write(json.dumps({"i": i, "r": {"skipped": "after 3 hanging cases in this child"}}) + "\n")
+            continue
         try:
             if case["kind"] == "flavours":
                 r = run_flavours(case, T)
@@ -832,6 +864,8 @@ def child_main():
             import traceback
             r = {"error": "harness: " + "".join(traceback.format_exception_only(type(e), e))[:300]
                  + " @ " + traceback.format_exc()[-600:]}
+        if isinstance(r, dict) and ("aborted_at" in r or r.get("returned") is False):
+            hangs += 1
         sys.stdout.write(json.dumps({"i": i, "r": lib.jsonable(r)}) + "\n")
         sys.stdout.flush()
     sys.stdout.flush()
@@ -867,7 +901,7 @@ def run_children(cases, T=T_HANG, nproc=None):
         p.stdin.write(json.dumps({"T": T, "cases": [[i, lib.jsonable(c)] for i, c in sh]}))
         p.stdin.close()
         # budget: normal cost, plus room for every case of the shard to hang once
-        procs.append((p, sh, time.time() + 30 + sum(case_cost(c) for _, c in sh) * 4 + len(sh) * T * 1.5))
+        procs.append((p, sh, time.time() + 30 + sum(case_cost(c) for _, c in sh) * 4 + 3 * 2 * T))
     for p, sh, deadline in procs:
         lines = []
         reader = threading.Thread(target=lambda p=p, lines=lines: lines.extend(p.stdout), daemon=True)
@@ -883,9 +917,11 @@ def run_children(cases, T=T_HANG, nproc=None):
                 results[d["i"]] = d["r"]
             except Exception:  # noqa: BLE001
                 pass
-        for i, _ in sh:
+        first = True
+        for i, _ in sh:                  # the child runs its cases in this order and reports after each one
             if results[i] is None:
-                results[i] = {"error": "child_killed"}
+                results[i] = {"error": "child_killed"} if first else {"skipped": "child was killed on an earlier case"}
+                first = False
     return results
 
 
@@ -920,6 +956,8 @@ def judge_flavours(chk, c, r):
     dec = r["dec"]
     nreq = len(c["requests"])
     for ri in range(nreq):
+        if f"sync/async_run/{ri}" not in dec:
+            break
         ref = dec[f"sync/async_run/{ri}"]
         ref_logs = r["logs"][f"sync/async_run/{ri}"]
         ref_metrics = r["metrics"][f"sync/async_run/{ri}"]
@@ -927,6 +965,8 @@ def judge_flavours(chk, c, r):
         for mode in ("sync", "async"):
             for fl in FLAVOURS:
                 k = f"{mode}/{fl}/{ri}"
+                if k not in dec:
+                    continue
                 got = dec[k]
                 chk.mark(("fl", name, json.dumps(c["collab"], sort_keys=True), k), bool(nontrivial))
                 chk.count("flavour:" + fl)
@@ -972,7 +1012,12 @@ def judge_gather(chk, c, r):
             chk.corr_break("harness could not run a gather case", strip(c), impl=r, theorems=["c14_gather_sequential"])
         return
     seq = r["seq"]
+    if seq == ["!hang"]:
+        chk.violation("sequential evaluate_async calls did not return", strip(c), impl=seq, model="returns")
+        return
     for how in ("gather", "threads", "threads_inloop"):
+        if how not in r:
+            continue
         got = r[how]
         want = seq if how != "threads_inloop" else (seq[:16] if isinstance(seq, list) and seq[:1] != ["!hang"] else seq)
         chk.mark(("gather", name, how), True)
@@ -984,7 +1029,7 @@ def judge_gather(chk, c, r):
             chk.violation(f"cross-talk: results of concurrent evaluations ({how}) differ from the sequential results",
                           dict(strip(c), at=how, first_differing_jobs=bad),
                           impl=[got[i] for i in bad] if bad else got, model=[want[i] for i in bad] if bad else want)
-    if r.get("logs_gather") != r.get("expected_logs"):
+    if "logs_gather" in r and r.get("logs_gather") != r.get("expected_logs"):
         chk.violation("cross-talk: decision-log sinks did not receive exactly their engine's decisions under gather",
                       strip(c), impl=r.get("logs_gather"), model=r.get("expected_logs"))
     for m in r["mut"]:
@@ -1050,14 +1095,40 @@ def check_skeletons(chk):
                            {"kind": "skeleton", "method": name}, impl=got, model=want, theorems=THEOREMS)
 
 
+TRACE_F10 = [[0, False]] * 4
+TRACE_F11 = [[0, False]] * 13 + [[2, False], [0, False]]
+TRACE_F11_MID = ([[0, False]] * 11 + [[2, False], [2, False], [2, True], [2, False], [2, True], [2, False], [2, True],
+                                    [2, True]] + [[0, False]] * 3 + [[2, False]])
+
+
+def check_witness_schedules(chk):
+    """the schedules proved deadlocking in Coq (c14_refuted_*), replayed through the extracted runner: they must
+    deadlock in the pre-fix programs and must not in the current ones (cross-check of extraction)."""
+    f10 = {"ctx": "loop", "main": [["start", True, False]], "xctx": "plain", "other": []}
+    f11 = {"ctx": "plain", "main": [["start", False, False], ["stop", False]], "xctx": "plain", "other": []}
+    asks = [("F10/pre", dict(f10, start="pre", stop="pre"), TRACE_F10, True),
+            ("F11/pre", dict(f11, start="cur", stop="pre"), TRACE_F11, True),
+            ("F11mid/pre", dict(f11, start="cur", stop="pre"), TRACE_F11_MID, True),
+            ("F10/cur", dict(f10, start="cur", stop="cur"), TRACE_F10, False),
+            ("F11/cur", dict(f11, start="cur", stop="cur"), TRACE_F11, False),
+            ("F11mid/cur", dict(f11, start="cur", stop="cur"), TRACE_F11_MID, False)]
+    outs = lib.run_model("conc", [lib.model_call("conc.schedule", cfg, tr) for _, cfg, tr, _ in asks])
+    seen = {}
+    for (name, cfg, tr, want), o in zip(asks, outs):
+        d = lib.dec(o)
+        got = d.get("deadlocked") if isinstance(d, dict) else d
+        seen[name] = got
+        chk.mark(("witness", name), True)
+        if got is not want:
+            chk.corr_break("extracted lock model disagrees with the Coq witness for %s (deadlocked: expected %s)"
+                           % (name, want), {"kind": "witness", "name": name, "config": cfg, "trace": tr}, impl=None,
+                           model=d, theorems=["c14_refuted_start_in_loop", "c14_refuted_stop_none_midcheck"])
+    chk.extra["witness_schedules_deadlocked"] = seen
+
+
 def check_cases(chk, cases, replay=False):
     cases = [c for c in cases if isinstance(c, dict)]
     results = run_children(cases)
-    # a killed child takes its unfinished cases with it: rerun those one by one to find the one that hangs
-    redo = [i for i, r in enumerate(results) if isinstance(r, dict) and r.get("error") == "child_killed"]
-    if redo and len(redo) > 1:
-        for i in redo:
-            results[i] = run_children([cases[i]], nproc=1)[0]
     wcases = [(i, c) for i, c in enumerate(cases) if c["kind"] == "watchdog"]
     cfgs = {}
     for _, c in wcases:
@@ -1068,6 +1139,9 @@ def check_cases(chk, cases, replay=False):
     chk.extra["model_states_explored"] = sum(v.get("states", 0) for v in mvs.values() if isinstance(v, dict))
     for i, c in enumerate(cases):
         r = results[i]
+        if isinstance(r, dict) and "skipped" in r:
+            chk.count("not_run:" + r["skipped"])
+            continue
         if c["kind"] == "flavours":
             judge_flavours(chk, c, r)
         elif c["kind"] == "gather":
@@ -1076,6 +1150,8 @@ def check_cases(chk, cases, replay=False):
             judge_watchdog(chk, c, r, mvs[json.dumps(model_config(c), sort_keys=True)], replay)
         elif c["kind"] == "skeleton":
             check_skeletons(chk)
+        elif c["kind"] == "witness":
+            check_witness_schedules(chk)
 
 
 def run(chk):
@@ -1096,7 +1172,7 @@ def run(chk):
         "the implementation is observed on sampled schedules (plus two forced ones); only the model covers all schedules",
     ]
     corp = corpus_cases()
-    cases = corp + [{"kind": "skeleton"}] + watchdog_cases(chk) + flavour_cases(chk) + gather_cases(chk)
+    cases = corp + [{"kind": "skeleton"}, {"kind": "witness"}] + watchdog_cases(chk) + flavour_cases(chk) + gather_cases(chk)
     chk.extra["cases"] = {"corpus": len(corp), "watchdog": sum(1 for c in cases if c["kind"] == "watchdog"),
                           "flavours": sum(1 for c in cases if c["kind"] == "flavours"),
                           "gather": sum(1 for c in cases if c["kind"] == "gather")}
